@@ -456,6 +456,65 @@ def _lin(x):
     return x if isinstance(x, Lin) else Lin({1: x})
 
 
+def check_caret_sim(chk, pm):
+    """C06.A primary: BareScriptParserError.__init__ evaluated on lines of length 0 .. 400 with the fault at every column: the error keeps the text, column and line number it
+    was given, and the caret of the formatted message sits under the character line[column - 1] of the displayed (possibly elided) line -> True when decided OK"""
+    from ..absint import Interp, AObj, RaiseSig
+    mod = pm.mod
+    func = mod.funcs.get('BareScriptParserError.__init__')
+    if func is None:
+        raise Unrecognised('C06.A', 'BareScriptParserError.__init__ not found', mod.rel)
+    it = Interp(mod, 'C06.A')
+    it.repo = chk.repo
+    lengths = [0, 1, 5, 60, 119, 120, 121, 122, 180, 181, 239, 240, 241, 300, 400]
+    n = 0
+    lines = [''.join(chr(0x4E00 + i) for i in range(L)) for L in lengths]
+    lines += [''.join(chr(0x4E00 + i) for i in range(L - 3)) + ' \t ' for L in (5, 60, 181)] + ['  ' + ''.join(chr(0x4E00 + i) for i in range(30)) + '  ']      # blanks at the ends are text too
+    for line in lines:
+        L = len(line)
+        cols = range(1, L + 2) if (chk.tier == 'thorough' or L <= 122) else sorted(set(list(range(1, 70)) + list(range(L - 70, L + 2)) + list(range(1, L + 2, 7))))
+        for col in cols:
+            for lineno, prefix in ((7, None), (None, 'Included from "x"')):
+                n += 1
+                obj = AObj('BareScriptParserError')
+                it.current_self = obj
+                it.depth = 0
+                try:
+                    it.call_function(func, [obj, 'Syntax error', line, col, lineno, prefix], func)
+                except RaiseSig as sig:
+                    chk.bad('C06.A', mod, 'BareScriptParserError.__init__', f'raises {sig.cls} for a line of {L} characters, column {col}',
+                            f'constructing the error for a line of {L} characters with the fault at column {col} raises {sig.cls}', node=func)
+                    return False
+                msg = obj.attrs.get('args', (None,))[0] if obj.attrs.get('args') else None
+                if not isinstance(msg, str):
+                    raise Unrecognised('C06.A', f'the constructor does not pass a text message to the base class ({msg!r})', mod.rel)
+                a = obj.attrs
+                if a.get('line') != line or a.get('column_number') != col or a.get('line_number') != lineno or a.get('error') != 'Syntax error':
+                    chk.bad('C06.A', mod, 'BareScriptParserError.__init__', f'attributes for a line of {L} characters, column {col}',
+                            f'the error does not carry what it was given: error={a.get("error")!r}, len(line)={len(a.get("line")) if isinstance(a.get("line"), str) else a.get("line")!r} '
+                            f'(given {L}), column_number={a.get("column_number")!r} (given {col}), line_number={a.get("line_number")!r} (given {lineno!r})', node=func)
+                    return False
+                rows = msg.split('\n')
+                carets = [i for i, r in enumerate(rows) if r.strip() == '^' and r.rstrip() == r.rstrip(' ')]
+                if len(carets) != 1 or carets[0] == 0:
+                    raise Unrecognised('C06.A', f'the formatted message has no single caret line: {msg[:80]!r}', mod.rel)
+                shown = rows[carets[0] - 1]
+                pos = rows[carets[0]].index('^')
+                ok = (pos < len(shown) and shown[pos] == line[col - 1]) if col <= L else (L == 0 and pos == 0) or (pos >= 1 and pos - 1 < len(shown) and shown[pos - 1] == line[L - 1])
+                if not ok:
+                    under = shown[pos] if pos < len(shown) else '<past the end>'
+                    chk.bad('C06.A', mod, 'BareScriptParserError.__init__', f'caret for a line of {L} characters, fault at column {col}',
+                            f'for a line of {L} characters with the fault at column {col} the caret of the formatted message sits at position {pos + 1} of the displayed line, under character '
+                            f'#{(ord(under) - 0x4E00 + 1) if len(under) == 1 and ord(under) >= 0x4E00 else under} of the line instead of #{col}', node=func)
+                    return False
+                if len(shown) > 140:
+                    chk.bad('C06.A', mod, 'BareScriptParserError.__init__', f'line of {L} characters shown in full', f'a line of {L} characters is displayed in {len(shown)} characters: long lines are elided around the fault', node=func)
+                    return False
+    chk.ok('C06.A', f'{n} constructions evaluated (lines of 0 .. 400 characters, the fault at every column incl. one past the end, with and without line number / prefix): the error keeps '
+           f'text, column and line number; the caret sits under the same character of the displayed line in all three elision cases', count=n)
+    return True
+
+
 def check_caret(chk, pm):
     mod = pm.mod
     func = mod.funcs.get('BareScriptParserError.__init__')
@@ -631,7 +690,10 @@ def run(chk):
     chk.guard('C06.D', check_sweep, chk, pm)
     chk.guard('C06.E', check_group_names, chk, pm)
     chk.guard('C06.E', check_number_regex, chk, pm)
-    chk.guard('C06.A', check_caret, chk, pm)
+    if chk.guard('C06.A', check_caret_sim, chk, pm):
+        chk.advisory('C06.A', check_caret, chk, pm)
+    else:
+        chk.guard('C06.A', check_caret, chk, pm)
     from . import c02
     before = len(chk.instances)
     chk.guard('C06.X', c02.check_error_texts, chk, pm.mod)
